@@ -109,10 +109,19 @@ class Model:
         # their callers (sa/inline.py), so an "extract helper" refactoring does not hide
         # statements from rules that were written against the un-extracted shape
         self.inlined, self.dropped_helpers = [], []
+        self.normalisation_error = None
         if not os.environ.get("VERIF_NO_INLINE"):
             from . import inline
 
-            self.inlined, self.dropped_helpers = inline.normalise(self.mods)
+            try:
+                self.inlined, self.dropped_helpers = inline.normalise(self.mods)
+            except Exception as e:  # the pass must never take the checks down: analyse the tree as written
+                import traceback
+
+                self.normalisation_error = traceback.format_exc(limit=4)
+                self.inlined, self.dropped_helpers = [], []
+                for rel in list(self.mods):
+                    self.mods[rel] = ast.parse(self.src[rel], filename=rel)
         for rel, tree in self.mods.items():
             for n in ast.walk(tree):
                 for ch in ast.iter_child_nodes(n):
